@@ -767,6 +767,28 @@ func (c *CoreRun) kill() {
 // executes them together with their cause); in read-only metadata mode the whole store phase of a save is one
 var readOnlyRun bool
 
+// afterDivergence: the labels still executed once a run has diverged from the specification (see Run)
+func afterDivergence(l map[string]any) bool {
+	if ok, has := l["ok"].(bool); has && !ok {
+		return false // an injected failure
+	}
+	if r, has := l["res"].(string); has && r != "ok" {
+		return false // a refused / rolled-back stream request
+	}
+	if p, has := l["part"].(bool); has && p {
+		return false // a backend that answers for only part of the vBuckets
+	}
+	switch str(l["a"]) {
+	case "LoadRet", "SeqNosRet", "FoLogRet", "OpenRet", "ReopenRet", "CloseRet", "CloseEmpty", "StoreWrite", "SaveRet", "SaveRemark", "SaveTake",
+		"SaveLock", "SaveAcquire", "ConsRet", "Ack", "TimerFire", "WaitFin", "RbLock", "ScrapeRet", "GateOpen", "StartWind", "Quiesce", "Nop", "Boot":
+		return true
+	case "RmSwitch":
+		on, _ := l["on"].(bool)
+		return !on
+	}
+	return false
+}
+
 func autoLabel(l map[string]any) bool {
 	a := str(l["a"])
 	return a == "SaveAcquire" || a == "GateOpen" || (readOnlyRun && a == "SaveRet")
@@ -806,7 +828,16 @@ func (c *CoreRun) Run() []TraceLine {
 		tl := TraceLine{Run: c.sch.ID, I: first + 1, L: st.L}
 		wasUp := c.up
 		var rOld *riga.Rig = c.r
-		reason := c.exec(st.L)
+		reason := ""
+		if c.diverged && c.up && !afterDivergence(st.L) {
+			// the run has left the specification: the rest of the schedule was computed for states the real code is not in, so
+			// its environment inputs (new events, stream ends, notifications, API calls, injected failures) could break the
+			// assumptions every behaviour of the specification respects. From here on only what the library is waiting for is
+			// answered (friendly), acknowledgements are passed on, timers fire; the monitors judge what the code then does
+			reason = "not executed: the run no longer follows the specification"
+		} else {
+			reason = c.exec(st.L)
+		}
 		if reason != "" {
 			tl.Skipped = reason
 			if c.up && c.r != nil && reason != "process is down" {
